@@ -113,7 +113,14 @@ func (c *syncMap) ExpireAll(ctx context.Context) {
 	c.data.Range(func(key, value interface{}) bool {
 		cacheEntry := value.(*TraitEntry) //nolint // Panic on type assertion failure is fine here.
 
-		atomic.StoreInt64(&cacheEntry.E, startTS)
+		// Entry that has expired already keeps its expiration time.
+		for {
+			e := atomic.LoadInt64(&cacheEntry.E)
+			if (e != 0 && e <= startTS) || atomic.CompareAndSwapInt64(&cacheEntry.E, e, startTS) {
+				break
+			}
+		}
+
 		cnt++
 
 		return true
